@@ -32,6 +32,7 @@ class Tokenizer:
             "]": "[",
             "}": "{",
         }
+        self._not_body: Final = {Token.COMMENT, Token.NL, Token.WS, Token.DEDENT, Token.ENDMARKER}
         if verbose:
             self.report(False, False)
 
@@ -135,18 +136,23 @@ class Tokenizer:
         """loop until we get INDENT-DEDENT or NL"""
 
         is_indented: bool = False
+        opened: bool = False  # the block's own INDENT was seen
         indent = 0
         lines = {}
         start = end = self._tokens[-1].end
         for idx, tok in enumerate(self._tokengen):
             if (idx == 0) and tok.type == Token.NEWLINE:
+                # block form: comment and blank lines may come before the first indented statement
+                is_indented = True
                 continue
             elif tok.type == Token.INDENT:
-                if (not is_indented) and (idx == 1):
-                    is_indented = True
+                if is_indented and not opened:
+                    opened = True
                     continue
                 indent += 1
-            elif tok.type == Token.DEDENT:
+            elif is_indented and (not opened) and tok.type not in self._not_body:
+                is_indented = False  # no indented block follows the colon
+            if tok.type == Token.DEDENT:
                 if indent:
                     indent -= 1
                     continue
